@@ -377,6 +377,99 @@ def scenario_to_case(s: dict, seed: int, idx: int) -> dict:
     return case
 
 
+# ------------------------------------------------------------------------------------------------
+LADDER_TIMEOUT = 120.0
+
+
+def _ladder_child(depth: int, fn: str, q) -> None:
+    """Child process: stacked diamonds x <- (x * a) + (x * b) (two equally long branches leaving and re-joining
+    the same tensor, `depth` times).  The graph has 3*depth + O(1) nodes; LeafWalk!BoundedWork says the walk
+    dequeues every node once (roots at most twice), so the defaulted call is as cheap as the explicit one."""
+    import collections
+    import time
+    from torchjd import backward, mtl_backward
+    from torchjd.aggregation import Sum
+    import torchjd.autojac._utils as U
+    torch.set_num_threads(1)
+    pops = [0]
+    if hasattr(U, "deque"):                      # implementation-shaped observation (DRIFT only): iterations of the walk
+
+        class CountingDeque(collections.deque):
+            def popleft(self):
+                pops[0] += 1
+                return super().popleft()
+
+            def pop(self):
+                pops[0] += 1
+                return super().pop()
+        U.deque = CountingDeque
+
+    def build():
+        w = torch.tensor([0.5, -0.25], dtype=torch.float64, requires_grad=True)
+        v = torch.tensor(2.0, dtype=torch.float64, requires_grad=True)
+        x = w * v
+        for i in range(depth):
+            x = (x * 0.5) + (x * (0.25 if i % 2 else -0.25))
+        f = x
+        t1 = torch.tensor(3.0, dtype=torch.float64, requires_grad=True)
+        t2 = torch.tensor(-1.0, dtype=torch.float64, requires_grad=True)
+        return w, v, f, t1, t2, [(f * t1).sum(), (f.sum() * t2)]
+
+    out = {}
+    for defaulted in (False, True):
+        w, v, f, t1, t2, losses = build()
+        t0 = time.time()
+        if fn == "backward":
+            backward(losses, Sum(), inputs=None if defaulted else [w, v, t1, t2])
+        else:
+            mtl_backward(losses, f, Sum(), tasks_params=None if defaulted else [[t1], [t2]],
+                         shared_params=None if defaulted else [w, v])
+        out["defaulted" if defaulted else "explicit"] = {
+            "secs": time.time() - t0, "grads": [None if p.grad is None else p.grad.reshape(-1).tolist() for p in (w, v, t1, t2)]}
+        if not defaulted:
+            pops[0] = 0
+    out["pops"] = pops[0]
+    q.put(out)
+
+
+def ladder_cases(ctx: Ctx) -> None:
+    """Termination / bounded work of the defaulted call on deep graphs (LeafWalk!BoundedWork, WalkEnds): each
+    case runs in a process of its own and must return; the defaulted and the explicit call leave equal .grad."""
+    import multiprocessing as mp
+    mpc = mp.get_context("fork")
+    for depth in (24, 60):
+        for fn in ("backward", "mtl_backward"):
+            key = f"ladder:{fn}:depth={depth}"
+            q = mpc.Queue()
+            pr = mpc.Process(target=_ladder_child, args=(depth, fn, q))
+            pr.start()
+            try:
+                out = q.get(timeout=LADDER_TIMEOUT)
+            except Exception:                                    # noqa: BLE001  (queue.Empty)
+                out = None
+            pr.join(timeout=5)
+            if pr.is_alive():
+                pr.kill()
+                pr.join()
+            ctx.evaluations += 2
+            if out is None:
+                ctx.violation(key, f"{fn} with defaulted parameters on {depth} stacked diamonds (a graph of about {3 * depth + 8} "
+                                   f"nodes) did not return within {LADDER_TIMEOUT:.0f} s (or died): the discovery of the "
+                                   f"defaults must visit every node of the graph once (LeafWalk!BoundedWork, WalkEnds)",
+                              {"case": {"ladder": True, "fn": fn, "depth": depth}})
+                continue
+            ctx.nontrivial(key)
+            if out["defaulted"]["grads"] != out["explicit"]["grads"]:
+                ctx.violation(key + ":grads", f"{fn} on {depth} stacked diamonds: defaulted call left {out['defaulted']['grads']}, "
+                                              f"explicit call {out['explicit']['grads']}",
+                              {"case": {"ladder": True, "fn": fn, "depth": depth}})
+            nodes = 3 * depth + 12
+            if out["pops"] > 2 * (nodes + 4):
+                ctx.report_drift("LeafWalk", f"the walk dequeued {out['pops']} times on a graph of about {nodes} nodes "
+                                             f"(BoundedWork: every node once, roots at most twice)")
+            ctx.count("ladder_cases")
+
+
 def run(ctx: Ctx, replay: str | None) -> None:
     torch.manual_seed(ctx.seed)
     quick = ctx.tier == "quick"
@@ -406,6 +499,10 @@ def run(ctx: Ctx, replay: str | None) -> None:
     if replay:
         rec = json.load(open(replay))
         case = rec["payload"]["case"]
+        if case.get("ladder"):
+            ladder_cases(ctx)
+            ctx.violations = [v for v in ctx.violations if v["key"].startswith(rec["key"].split(":grads")[0])]
+            return
         r = run_case(case)
         judge(ctx, r, "scenario")
         validate_episodes(ctx, [dict(e) for e in r["episodes"]], [case] * len(r["episodes"]))
@@ -486,6 +583,8 @@ def run(ctx: Ctx, replay: str | None) -> None:
     for r in (no[len(no) // 3: len(no) // 3 + 1] + ov[len(ov) // 2: len(ov) // 2 + 1] + no[-1:]) or results[:2]:
         ctx.sample({"case": {k: v for k, v in r["case"].items() if k != "expected"}, "sets": r["twin"],
                     "overlap": r["overlap"], "variants": r["variants"]})
+
+    ladder_cases(ctx)
 
     # ---- (c) C -> S
     n = 250 if quick else 2500
